@@ -6,13 +6,18 @@ set value / bounds / fixed flag of a global parameter, fit, query (parameter tab
 every dataset sees, by the index route `Condition.get_local_params` and by the name route `FitData.get_params`, + the
 length of the residual vector the fit evaluates at that moment), and a Jacobian-row probe.  Scripts keep working on
 ONE fit object: fits are followed by further data (with and without new parameters) and further fits with nothing set
-in between, so that anything the object remembers from an earlier fit/query meets changed data.  A fit that is
+in between, so that anything the object remembers from an earlier fit/query meets changed data.  The harness is a
+CALLER with memory too: the samples of a dataset are handed over as fresh arrays, as lists, as views of ONE pair of
+pre-allocated buffers that is refilled in place for every dataset, or as strided views, and the caller may overwrite
+what it handed over as soon as `add_data` has returned; every query reads the samples each dataset holds
+(`fit[model].data[name].x/.y`), which must be the valid samples that were handed over when it was added.  A fit that is
 entitled to run (data, a free parameter, start inside a box with lb < ub) has to run to the end: an exception out of
 the optimiser is a violation, not an outcome.  `scipy.optimize.least_squares` is recorded, not modelled: the Lean model receives what the
 optimiser answered (it is a parameter of the model, assumed only to answer a point of its box; the harness asserts
 that contract on every call)."""
 import json
 import math
+import struct
 import warnings
 from fractions import Fraction
 
@@ -39,6 +44,9 @@ THEOREMS = [
     "Verif.C14.add_data_appends",
     "Verif.C14.add_data_keeps_entries",
     "Verif.C14.add_data_residuals",
+    "Verif.C14.add_data_holds",
+    "Verif.C14.held_data_kept",
+    "Verif.C14.run_exec",
     "Verif.C14.fit_spec",
     "Verif.C14.fixed_unchanged",
     "Verif.C14.fit_table_length",
@@ -78,6 +86,13 @@ RULE = (
     "force model additionally bounded below by the largest distance), optional fixing at the generating value and "
     "bounds tightened around / placed at the optimum; fit, refit from the optimum, add further data and fit: the "
     "generating values must come back within rel 1e-3 (5e-2 when a bound sits AT the optimum) and no fit may raise. "
+    "In every stream the harness is a caller with memory: the samples of a dataset are handed over as fresh float64 "
+    "arrays, as lists, as views of ONE pair of pre-allocated buffers refilled in place for every dataset, or as strided "
+    "views (corpus: each form; small scope: rotating with the layout; random / built-in / recovery: per script one habit "
+    "- all through the buffer, all fresh, or mixed), and after ~1 in 3 hand-overs the caller overwrites its arrays in "
+    "place as soon as add_data has returned; every query reads the samples every dataset holds (fit[model].data[name]"
+    ".x/.y, bit patterns) - they must be the valid samples handed over when it was added (model: in order; oracle: as "
+    "a multiset of pairs). "
     "Every query also reads the length of the residual vector the fit evaluates (= valid points of all datasets added "
     "so far); a fit that raises inside the optimiser from a feasible start in a box with lb < ub is a violation. Non-trivial: a fit ran to the end with >=2 datasets, an "
     "override or a fixed parameter; or an error path was hit; or >=2 datasets with an override were queried."
@@ -86,6 +101,7 @@ TRUSTED = [
     "scipy.optimize.least_squares is a PARAMETER of the model (recorded per call and replayed to the Lean model); the only assumption the theorems use (OptInBox: the answer lies in the box passed to it) is asserted by the oracle on every recorded call",
     "the standard-error computation after the write-back (Fit.cov, sigma) is outside the model; an exception raised there is recorded as '!post' and not compared with the model (in the recovery stream the oracle still reports it: those fits have to return)",
     "Python str() of a numeric override is sent to the model verbatim (the code builds condition strings from it)",
+    "the samples of a dataset travel to the model as the bit patterns of the doubles in the case (NaN entries as 0 next to the NaN masks); the model treats them as opaque values",
 ]
 ASSUMPTIONS = [
     "CondInj (hypothesis of the 'what a dataset sees' theorems): within one model, datasets with different target lists have different condition strings; false only when a parameter NAME equals the str() of a numeric override in the same position or names contain '|' (observation O-C14-A, corpus cases, reported as KNOWN-FINDING)",
@@ -132,13 +148,29 @@ def boollist(xs):
     return "[" + ",".join(enc_bool(x) for x in xs) + "]"
 
 
+def bits(v):
+    """bit pattern of a double as a natural number (the samples of a dataset are opaque to the bookkeeping)"""
+    return struct.unpack("<Q", struct.pack("<d", float(v)))[0]
+
+
+def bitlist(arr):
+    a = np.ascontiguousarray(np.asarray(arr, dtype=np.float64)).reshape(-1)
+    return "[" + ",".join(str(int(v)) for v in a.view(np.uint64)) + "]"
+
+
+def sent_bits(vals):
+    """what travels to the model for the samples handed over (the entry of a NaN is irrelevant: it is dropped)"""
+    return "[" + ",".join("0" if math.isnan(v) else str(bits(v)) for v in vals) + "]"
+
+
 # ------------------------------------------------------------------ building implementation objects
 
 BUILTIN = {}
 
 
 _CALLS = []
-COUNTS = {"datasets_checked_against_model_function_calls": 0, "optimiser_calls": 0, "fits_raised_after_write_back": 0}
+COUNTS = {"datasets_checked_against_model_function_calls": 0, "optimiser_calls": 0, "fits_raised_after_write_back": 0,
+          "held_samples_read": 0}
 
 
 def _rec(x, params):
@@ -289,7 +321,15 @@ def observe(fit, models, strict=True):
                 b = "[IndexError]"
             parts.append(f"{showstr(name)}={a}={b}")
         per.append("{" + " ".join(parts) + "}")
-    return T + " L" + "".join(per) + " " + nres
+    # the samples every dataset holds at this moment (insertion order), as bit patterns of their doubles
+    held = []
+    for m in models:
+        parts = []
+        for name, d in fit[m].data.items():
+            COUNTS["held_samples_read"] += 1
+            parts.append(f"{showstr(name)}={bitlist(d.x)}={bitlist(d.y)}")
+        held.append("{" + " ".join(parts) + "}")
+    return T + " L" + "".join(per) + " D" + "".join(held) + " " + nres
 
 
 def jac_probe(fit, models, mi, name, sens_x):
@@ -309,6 +349,52 @@ def jac_probe(fit, models, mi, name, sens_x):
     return "J:missing"
 
 
+HANDS = ["fresh", "buffer", "list", "strided"]
+
+
+class Caller:
+    """The user's side of `add_data`: where the samples live that are handed over.  `hand` of an add action:
+    'fresh' (default) two new float64 arrays nobody else holds; 'list' plain Python lists; 'buffer' views of the ONE
+    pair of pre-allocated float64 buffers of the script, refilled IN PLACE for every dataset that goes through them
+    (an acquisition / simulation buffer); 'strided' every second element of a work array.  `then` = 'overwrite': as soon
+    as `add_data` has returned the caller re-uses what it handed over (in place: reversed and halved).  None of this
+    is an action on the fit."""
+
+    def __init__(self, case):
+        n = max([1] + [max(len(a["x"]), len(a["y"])) for a in case["actions"] if a["a"] == "add"])
+        self.buf = (np.zeros(n, dtype=np.float64), np.zeros(n, dtype=np.float64))
+        self.kept = []  # everything handed over stays referenced by the caller
+
+    def hand(self, act):
+        mode = act.get("hand", "fresh")
+        out = []
+        for k, vals in enumerate((act["x"], act["y"])):
+            vals = [float(v) for v in vals]
+            if mode == "list":
+                arr = vals
+            elif mode == "buffer":
+                self.buf[k][: len(vals)] = vals
+                arr = self.buf[k][: len(vals)]
+            elif mode == "strided":
+                work = np.full(2 * len(vals), -99.0, dtype=np.float64)
+                work[::2] = vals
+                arr = work[::2]
+            elif mode == "fresh":
+                arr = np.array(vals, dtype=np.float64)
+            else:
+                raise ValueError(mode)
+            out.append(arr)
+        self.kept.append(out)
+        return out
+
+    def after(self, act, arrs):
+        if act.get("then") == "overwrite":
+            for arr in arrs:
+                arr[:] = [0.5 * float(v) for v in arr[::-1]]
+        elif act.get("then") is not None:
+            raise ValueError(act.get("then"))
+
+
 _CACHE = {}
 
 
@@ -321,6 +407,7 @@ def run_script(case):
 
     models = [make_model(s) for s in case["models"]]
     fit = lk.FdFit(*models)
+    caller = Caller(case)
     obs = []
     fits = []
     mtab = [[(k, None if p is None else (p.value, p.lower_bound, p.upper_bound, bool(p.fixed))) for k, p in m._params.items()] for m in models]
@@ -328,8 +415,7 @@ def run_script(case):
         a = act["a"]
         if a == "add":
             m = models[act["mi"]]
-            x = np.array(act["x"], dtype=float)
-            y = np.array(act["y"], dtype=float)
+            x, y = caller.hand(act)
             ov = {k: (v["n"] if "n" in v else v["c"]) for k, v in act.get("ov", {}).items()}
             try:
                 if m.independent == "f":
@@ -339,6 +425,7 @@ def run_script(case):
                 obs.append("add:ok")
             except Exception as e:
                 obs.append("add:" + errname(e))
+            caller.after(act, (x, y))
         elif a == "set":
             try:
                 p = fit.params[act["name"]]
@@ -442,6 +529,7 @@ def ops(case):
             for key, v in ov.items():
                 toks += [showstr(key), enc_target(v)]
             toks += [boollist([math.isnan(v) for v in act["x"]]), boollist([math.isnan(v) for v in act["y"]])]
+            toks += [sent_bits(act["x"]), sent_bits(act["y"])]
         elif a == "set":
             f, v = act["f"], act["v"]
             if f == "value":
@@ -539,9 +627,10 @@ def parse_optratlist(s):
 
 
 def parse_query(o):
-    """-> (table, per-model {dataset: (by index, by name)}); `parse_nres` reads the residual length"""
+    """-> (table, per-model {dataset: (by index, by name)}); `parse_nres` reads the residual length, `parse_held`
+    the samples the datasets hold"""
     t, l = o.split(" L", 1)
-    l = l.rsplit(" R", 1)[0]
+    l = l.rsplit(" R", 1)[0].rsplit(" D", 1)[0]
     table = parse_table(t)
     models = []
     for blk in l[1:-1].split("}{") if l else []:
@@ -552,6 +641,20 @@ def parse_query(o):
                 ds[unshowstr(n)] = (None if a == "missing" else parse_ratlist(a), None if "IndexError" in b else parse_ratlist(b))
         models.append(ds)
     return table, models
+
+
+def parse_held(o):
+    """per model {dataset: (x bit patterns, y bit patterns)} of a query"""
+    h = o.rsplit(" R", 1)[0].rsplit(" D", 1)[1]
+    models = []
+    for blk in h[1:-1].split("}{") if h else []:
+        ds = {}
+        if blk:
+            for part in blk.split(" "):
+                n, a, b = part.split("=")
+                ds[unshowstr(n)] = ([int(v) for v in a[1:-1].split(",") if v], [int(v) for v in b[1:-1].split(",") if v])
+        models.append(ds)
+    return models
 
 
 def parse_nres(o):
@@ -601,7 +704,7 @@ def _oracle(case, ia):
     def fail(cid, msg):
         fails.append(f"{cid}: {msg}")
 
-    data = [[] for _ in case["models"]]  # per model: list of (dsname, [targets], nvalid, x0)
+    data = [[] for _ in case["models"]]  # per model: list of (dsname, [targets], nvalid, x0, sorted valid sample pairs as bit patterns)
     all_names = []  # str targets so far (first-occurrence order irrelevant here)
     E = {}  # what the oracle knows about parameters: name -> dict(field -> value)
     prevT = None  # table of the immediately preceding query (None once anything happened in between)
@@ -626,7 +729,7 @@ def _oracle(case, ia):
                     t = ov.get(pn)
                     targets.append(pn if t is None else (t["n"] if "n" in t else t["c"]))
                 valid = [(xv, yv) for xv, yv in zip(act["x"], act["y"]) if not (math.isnan(xv) or math.isnan(yv))]
-                data[mi].append((act["name"], targets, len(valid), valid[0][0] if valid else None))
+                data[mi].append((act["name"], targets, len(valid), valid[0][0] if valid else None, sorted((bits(xv), bits(yv)) for xv, yv in valid)))
                 for t in targets:
                     if isinstance(t, str) and t not in all_names:
                         all_names.append(t)
@@ -670,10 +773,30 @@ def _oracle(case, ia):
                 fail("sees-residual", f"action {idx}: evaluating the residual of the fit raised ({o.rsplit(' R', 1)[1]})")
             elif nres != npts_now:
                 fail("sees-residual", f"action {idx}: the datasets added so far hold {npts_now} valid points ({[(d[0], d[2]) for dsl in data for d in dsl]}), the residual the fit evaluates has {nres} entries: not every dataset is seen")
+            # every dataset holds the valid samples that were handed over when it was added - whatever was added, set,
+            # fitted or asked since, and whatever the caller has done with its own arrays in the meantime (a fit is
+            # about the data it was given: the generating values cannot come back, and further data cannot leave the
+            # optimum alone, if a dataset that is already part of the fit turns into something else)
+            try:
+                held = parse_held(o)
+            except Exception as e:
+                held = None
+                fail("holds", f"action {idx}: unreadable observation of the held samples {o[-200:]} ({e!r})")
+            if held is not None:
+                for mi, dsl in enumerate(data):
+                    for dn, _, nvalid, _, pairs in dsl:
+                        if mi >= len(held) or dn not in held[mi]:
+                            fail("holds", f"action {idx}: dataset {dn!r} of model {mi} is not among the data of the fit")
+                            continue
+                        hx, hy = held[mi][dn]
+                        if len(hx) != len(hy) or sorted(zip(hx, hy)) != pairs:
+                            unb = lambda b: struct.unpack("<d", struct.pack("<Q", b))[0]
+                            fail("holds", f"action {idx}: dataset {dn!r} (model {mi}) was added with the {nvalid} valid samples {[(unb(a), unb(b)) for a, b in pairs][:6]}…, "
+                                 f"the fit now holds {len(hx)}/{len(hy)} samples {[(unb(a), unb(b)) for a, b in sorted(zip(hx, hy))][:6]}… although nothing changed it through the fit")
             # every dataset sees the table entry of the name it is mapped to, or its constant
             for mi, dsl in enumerate(data):
                 strs = [cond_string(d[1]) for d in dsl]
-                for di, (dn, targets, _, _) in enumerate(dsl):
+                for di, (dn, targets, _, _, _) in enumerate(dsl):
                     collision = any(strs[j] == strs[di] and [type(x) for x in dsl[j][1]] + list(dsl[j][1]) != [type(x) for x in targets] + list(targets) for j in range(len(dsl)))
                     if mi >= len(loc) or dn not in loc[mi]:
                         fail("sees", f"action {idx}: dataset {dn!r} of model {mi} is not evaluated")
@@ -783,7 +906,7 @@ def _oracle(case, ia):
                 mi = act["mi"]
                 ent = [d for d in data[mi] if d[0] == act["name"]]
                 if ent:
-                    _, targets, nvalid, _ = ent[0]
+                    _, targets, nvalid, _, _ = ent[0]
                     row = parse_ratlist(o[1:].split("!")[0])
                     sens = [Fraction(v) for v in act["sens"]]
                     exp = []
@@ -832,6 +955,12 @@ def shrink(case):
             b["y"] = a["y"][: len(a["y"]) // 2 + 1]
             c["actions"] = acts[:i] + [b] + acts[i + 1 :]
             yield c
+        if a["a"] == "add" and ("hand" in a or "then" in a):
+            for key in ("then", "hand"):
+                if key in a:
+                    c = dict(case)
+                    c["actions"] = acts[:i] + [{k2: v for k2, v in a.items() if k2 != key}] + acts[i + 1 :]
+                    yield c
         if a["a"] == "add" and a.get("ov"):
             for key in list(a["ov"]):
                 c = dict(case)
@@ -883,6 +1012,33 @@ def script(stream, models, actions, **kw):
     return c
 
 
+def with_hand(act, hand=None, then=None):
+    """a copy of an add action with the way its samples are handed over / re-used by the caller"""
+    b = dict(act)
+    if hand is not None and hand != "fresh":
+        b["hand"] = hand
+    if then is not None:
+        b["then"] = then
+    return b
+
+
+def assign_handover(case, h):
+    """how the caller hands the samples of every dataset over and what it does with them afterwards (drawn from a
+    fork `h`, so the script itself is what it always was): per script one of three habits - every dataset through
+    the script's ONE pair of re-used buffers (the acquisition buffer that is refilled for every curve), every
+    dataset as fresh arrays, or a mix of all four forms - and after 1 in 3 hand-overs the caller overwrites what it
+    handed over as soon as `add_data` has returned"""
+    habit = h.choice(["buffer", "buffer", "fresh", "mixed", "mixed"])
+    acts = []
+    for a in case["actions"]:
+        if a["a"] == "add":
+            hand = habit if habit != "mixed" else h.choice(HANDS)
+            a = with_hand(a, hand, "overwrite" if h.chance(1 / 3) else None)
+        acts.append(a)
+    case["actions"] = acts
+    return case
+
+
 def corpus_files():
     """corpus/C14/*.json: the inputs of the observations/findings, kept as files and run first forever"""
     import glob
@@ -903,6 +1059,11 @@ def corpus_cases():
     a2 = add_action(0, "d2", x, [2, 3], {"M/a": {"n": "M/a2"}})
     a3 = add_action(0, "d3", x, [5, 3], {"M/a": {"c": 5}})
     yield script("corpus", [M], [Q, a1, Q, a2, a3, Q, F, Q, {"a": "jac", "mi": 0, "name": "d2", "sens": sens_for(a2, 2)}, F, Q])
+    # the same through ONE pair of buffers the caller refills for every dataset, with fits in between; and every
+    # form of hand-over with the caller overwriting its arrays as soon as add_data has returned
+    yield script("corpus", [M], [with_hand(a1, "buffer"), Q, F, Q, with_hand(a2, "buffer"), Q, F, Q, with_hand(a3, "buffer"), Q, F, Q])
+    for hand in HANDS:
+        yield script("corpus", [M], [with_hand(a1, hand, "overwrite"), Q, F, Q, with_hand(a2, hand, "overwrite"), Q, F, Q])
     # O-C14-A: a parameter NAMED like a constant prints the same condition string
     yield script("corpus", [M], [add_action(0, "d1", x, [5, 3], {"M/a": {"c": 5}}), add_action(0, "d2", x, [1, 3], {"M/a": {"n": "5"}}), Q])
     yield script("corpus", [M], [add_action(0, "d1", x, [1, 3], {"M/a": {"n": "x|y"}, "M/b": {"n": "z"}}), add_action(0, "d2", x, [1, 3], {"M/a": {"n": "x"}, "M/b": {"n": "y|z"}}), S("x|y", "value", 10.0), S("x", "value", 20.0), Q])
@@ -969,7 +1130,9 @@ def small_scope(tier):
                     if "n" in t and t["n"] not in tnames:
                         tnames.append(t["n"])
                 coef = [1.0 + di, 3.0]
-                acts.append(add_action(0, f"d{di}", XS[1 : 6 + di], coef, ov))
+                # the form of the hand-over rotates with the layout (all four forms meet every position; the caller
+                # overwrites its arrays after every third one)
+                acts.append(with_hand(add_action(0, f"d{di}", XS[1 : 6 + di], coef, ov), HANDS[(ci + di) % 4], "overwrite" if (ci // 4 + di) % 3 == 0 else None))
             for fixpat in ([ci % 3] if nds == 3 else range(3 if not quick else 2)):
                 post = [Q]
                 if fixpat == 1 and tnames:
@@ -980,7 +1143,7 @@ def small_scope(tier):
                 # ... and further data with the layout of an existing dataset (no new parameter, nothing set in
                 # between: the fit object goes from "just fitted" straight to "more data" to "fit again")
                 src = acts[ci % nds]
-                more = add_action(0, "more", XS[3:8], [1.0 + ci % nds, 3.0], src.get("ov"))
+                more = with_hand(add_action(0, "more", XS[3:8], [1.0 + ci % nds, 3.0], src.get("ov")), HANDS[(ci + 1) % 4], "overwrite" if ci % 2 else None)
                 yield script("small-scope", [M], acts + post + probe + [F, Q, F, Q, more, Q, F, Q])
 
 
@@ -1125,7 +1288,7 @@ def random_script(rng, stream="random"):
             acts.append(a)
             c = t.randint(0, 9)
             acts += [Q, F, Q] if c <= 3 else [F, Q] if c <= 6 else [Q] if c <= 8 else [F]
-    return script(stream, models, acts)
+    return assign_handover(script(stream, models, acts), rng.fork("handover"))
 
 
 def random_builtin(rng):
@@ -1158,7 +1321,7 @@ def random_builtin(rng):
         if rng.chance(0.6):
             acts.append(Q)
     acts.append(Q)
-    return script("random-builtin", models, acts)
+    return assign_handover(script("random-builtin", models, acts), rng.fork("handover"))
 
 
 DIST = ["ewlc_odijk_distance", "ewlc_marko_siggia_distance", "wlc_marko_siggia_distance", "efjc_distance", "twlc_distance"]
@@ -1294,7 +1457,7 @@ def recover_case(rng, slow_ok=False):
     tol = 5e-2 if at_optimum else 1e-3
     acts += [Q, F, dict(Q, check="recovered", tol=tol), F, dict(Q, check="refit-from-optimum", tol=tol)]
     acts += [more, Q, F, dict(Q, check="more-data", tol=tol)]
-    return script("recover", specs, acts, truth=truth)
+    return assign_handover(script("recover", specs, acts, truth=truth), rng.fork("handover"))
 
 
 def cases(tier, rng):
@@ -1335,6 +1498,7 @@ def extra_coverage(results):
     recover = {"cases": 0, "checked_queries": 0, "worst_rel_error_no_bound_at_optimum": 0.0, "worst_rel_error_bound_at_optimum": 0.0, "ctors": collections.Counter()}
     clause_ids = collections.Counter()
     variants_differ = 0
+    handover = collections.Counter()
     for r in results:
         c = r["case"]
         if r["clause"]:
@@ -1347,6 +1511,7 @@ def extra_coverage(results):
         nds[sum(1 for a in c["actions"] if a["a"] == "add")] += 1
         for a in c["actions"]:
             if a["a"] == "add":
+                handover[a.get("hand", "fresh") + ("+overwritten-after" if a.get("then") else "")] += 1
                 seen = set()
                 for k, v in a.get("ov", {}).items():
                     if "c" in v:
@@ -1387,6 +1552,7 @@ def extra_coverage(results):
         "override_kinds": dict(target_kinds),
         "fit_outcomes": dict(outcomes),
         "refused_actions": dict(errors),
+        "datasets_by_form_of_hand_over": dict(handover),
         "oracle_clause_ids_hit": dict(clause_ids),
         "scripts_where_the_repaired_variant_differs": variants_differ,
         "variant_the_implementation_followed": dict(VARIANT),
